@@ -563,6 +563,13 @@ pub fn run(args: &Args) -> i32 {
             }
         }
     }
+    // rates at the small end of the range: positive but below the resolution of an f32 next to 1
+    // (2^-24, 2^-25), and far smaller; a rate that small means "practically never", not "always"
+    for kind in ["WithRate/Vec<bool>", "WithRate/Bitstring"] {
+        for rate in [1e-3f32, 1e-5, 1e-7, 5.960_464_5e-8, 2.980_232_2e-8, 1e-9, 1e-20, f32::MIN_POSITIVE] {
+            cfgs.push(Cfg::Flip(kind, Some(rate), 64));
+        }
+    }
     for kind in ["WithOneOverLength/Vec<bool>", "WithOneOverLength/Bitstring"] {
         for len in [1usize, 2, 3, 8, 20, 64] {
             cfgs.push(Cfg::Flip(kind, None, len));
